@@ -152,6 +152,8 @@ device_cb(void *arg)
 	case NNI_DEVICE_STATE_INIT:
 		break;
 	case NNI_DEVICE_STATE_SEND:
+		// sent: the message belongs to the destination socket now
+		nni_aio_set_msg(&p->aio, NULL);
 		p->state = NNI_DEVICE_STATE_RECV;
 		break;
 	case NNI_DEVICE_STATE_RECV:
